@@ -269,9 +269,21 @@ func (pf Producer[T]) Iterator() *Iterator[T] {
 }
 
 func (pf Producer[T]) IteratorWithErrorCollector(ec Handler[error], er Future[error]) *Iterator[T] {
-	op, cancel := pf.WithCancel()
-	iter := &Iterator[T]{operation: op}
-	iter.closer.op = cancel
+	// like WithCancel, except that closing the iterator before (or
+	// while) the first read starts is not an invariant violation:
+	// that read reports the end of the iteration.
+	var wctx context.Context
+	var cancel context.CancelFunc
+	once := &sync.Once{}
+
+	iter := &Iterator[T]{operation: func(ctx context.Context) (out T, _ error) {
+		once.Do(func() { wctx, cancel = context.WithCancel(ctx) })
+		if wctx == nil {
+			return out, io.EOF
+		}
+		return pf(wctx)
+	}}
+	iter.closer.op = func() { once.Do(func() {}); ft.SafeCall(cancel) }
 	iter.err.handler = ec
 	iter.err.future = er
 	return iter
